@@ -209,6 +209,11 @@ class RoundTrip(Stage):
 CHATTER = string.ascii_letters + string.digits + ' .,:;()[]{}<>@#-_=+*/!?\'|~%&$^`éü'
 
 
+CHATTER_TOKENS = ['[12]', '[1.5', '1.5]', '12.345', '->', ' -> ', 'a@1.b()', 'wl_surface@3.commit()', 'x#2.f(1, 2)', '(', ')', '[', ']', '{q}', '<3>',
+                  'error:', 'Gtk-WARNING **:', '(process:123):', 'libEGL', 'warning', '12:34:56.789', '[info]', '[ 1 ]', '[a.b]', 'new id x@3',
+                  'nil', 'fd 3', '"quoted"', 'wl_display@1.error(', 'discarded', '[.5]', '[5.]', '[1.2.3]', '[1,2', 'f()', 'a.b()', 'a@b.c()']
+
+
 class NonMessages(Stage):
     """Lines that contain no message by an independent definition must raise RuntimeError."""
     name = 'nonmessage'
@@ -217,9 +222,13 @@ class NonMessages(Stage):
         return 1500 if tier == 'quick' else 14 * 10000
 
     def gen(self, d, tier):
-        k = d.choice(['chatter', 'blank', 'drop-paren', 'drop-timestamp', 'drop-name', 'drop-id', 'drop-open', 'no-space'])
+        k = d.weighted([(6, 'chatter'), (1, 'blank'), (2, 'drop-paren'), (2, 'drop-timestamp'), (2, 'drop-name'), (2, 'drop-id'),
+                        (2, 'drop-open'), (2, 'no-space')])
         if k == 'chatter':
-            t = d.text(CHATTER, 0, 60)
+            toks = []
+            for _ in range(d.int(1, 8)):
+                toks.append(d.choice(CHATTER_TOKENS) if d.chance(0.6) else d.text(CHATTER, 0, 12))
+            t = d.choice(['', ' ', '']).join(toks) if d.chance(0.3) else ' '.join(toks)
             # independent definition of "no message": no timestamp-shaped token at all
             t = TS_SHAPED.sub('[]', t)
             return dict(kind=k, line=t)
